@@ -48,12 +48,11 @@ let svec_handler args =
   let ops = ops_of args in
   let ncap = nat_of_int cap in
   let (a, b) = srun ncap ops in let (ma, mb) = smask_run ncap ops in let (la, lb) = std_run (Some ncap) ops in
-  let fits = ctor_fits ncap ops in
   let show o m = if int_of_nat o.ssize > cap then "n=" ^ string_of_int (int_of_nat o.ssize) ^ " [over-capacity]"
                  else show_masked (scontents o) m in
   { model = "A " ^ show a ma ^ " B " ^ show b mb ^ " | heap a=0 f=0 bad=0 oob=0 live=0";
     spec = "A " ^ show_zs la ^ " B " ^ show_zs lb;
-    dom = fits && determinedb ma && determinedb mb }
+    dom = determinedb ma && determinedb mb }
 
 (* small_vector: no Coq state machine; reference = std::vector, mask = the vector mask (cells of a sized
    construction / growing resize are not fixed) *)
